@@ -1443,7 +1443,12 @@ func (e *Entry) Find(name string) *Entry {
 				e.addError(fmt.Errorf("cannot find module giving prefix %q within context entry %q", prefix, e.Path()))
 				return nil
 			}
-			m := module(mod)
+			// A path into the module of a submodule leads into the
+			// revision of it that includes that submodule.
+			m := includingModule(mod)
+			if m == nil {
+				m = module(mod)
+			}
 			if m == nil {
 				e.addError(fmt.Errorf("cannot find which module %q belongs to within context entry %q",
 					mod.NName(), e.Path()))
@@ -1455,7 +1460,9 @@ func (e *Entry) Find(name string) *Entry {
 		} else if sub, ok := e.Node.(*Module); ok && sub.Kind() == "submodule" {
 			// Without a prefix the path names a node of the module
 			// that the submodule belongs to, as its own prefix does.
-			if m := module(sub); m != nil {
+			if m := includingModule(sub); m != nil {
+				e = ToEntry(m)
+			} else if m := module(sub); m != nil {
 				e = ToEntry(m)
 			}
 		}
